@@ -3,12 +3,43 @@
 ENGINES = {
     'pwdsim': {'sources': ['pwdsim.c']},
     'streamsim': {'sources': ['streamsim.c']},
+    'mtsim': {'sources': ['mtsim.c'], 'plain_sources': ['mtwrap.c'],
+              'wraps': ['pthread_mutex_init', 'pthread_mutex_lock', 'pthread_mutex_unlock', 'pthread_mutex_destroy', 'atexit']},
     'faultcall': {'sources': ['faultcall.c', 'fc_belt.c', 'fc_misc.c', 'fc_bign.c', 'fc_proto.c'], 'common_sources': ['b2util.c']},
 }
 
 REAL_ALL = ['all of /repo/src compiled from the current working tree with -DBEE2_VERIF']
 
 CHECKS = {
+    'C18': {
+        'level': 'exploration',
+        'legs': [
+            {'engine': 'mtsim', 'config': 'tsan', 'variant': '', 'runs': [60000, 6000000]},
+            {'engine': 'mtsim', 'config': 'tsan', 'variant': 'once', 'runs': [100000, 10000000]},
+            {'engine': 'mtsim', 'config': 'asan', 'variant': '', 'runs': [30000, 3000000]},
+            {'engine': 'mtsim', 'config': 'asan', 'variant': 'once', 'runs': [40000, 4000000]},
+            {'engine': 'mtsim', 'config': 'tsan', 'variant': 'exit', 'runs': [30000, 3000000]},
+            {'engine': 'mtsim', 'config': 'asan', 'variant': 'exit', 'runs': [20000, 2000000]},
+        ],
+        'sigs_per_leg': True,
+        'rule': ('a case is one seeded schedule of 2..8 (thorough: 2..16) simulated caller threads, each a generated sequence of 1..10 operations from '
+                 '{rngCreate (with/without extra source), rngStepR, rngStepR2, rngRekey, rngIsValid, rngClose} obeying the reference-holding contract '
+                 '(variant "once": mtCallOnce on one trigger, mtAtomicIncr/Decr, a CAS spin lock), under one of four scheduling strategies '
+                 '(uniform, PCT depth 0..3, round robin with random quantum, starve-one) with yield points before every atomic, around every mutex '
+                 'operation, inside entropy reads and at allocations, and with entropy/allocation/mutex-init/atexit faults; the process-lifetime statics are '
+                 'reset per run so every run contains the first-initialisation race; distinct = distinct synchronisation-order signatures '
+                 '(digest of the sequence of (task, sync-op kind, object)); every run is non-trivial (>= 2 tasks interleaved)'),
+        'real': ['src/core/mt.c, rng.c, util.c, blob.c, mem.c and the brngCTR/beltHash code they call, compiled from the current tree (tsan leg with NDEBUG, asan leg with ASSERTs)'],
+        'stub': ['entropy sources trng/trng2/sys/sys2/timer (H-rng-es: seeded bytes, missing/short/error faults)', 'blocking in pthread_mutex_lock (the scheduler parks the fiber; the real lock is taken when free)',
+                 'atexit (recorded, run at simulated process exit)', 'libc malloc (simulated arena; event-keyed allocation faults)', 'OS threads (ucontext fibers registered with TSan/ASan fiber APIs)'],
+        'assumptions': [
+            'preemption only at synchronisation points, allocations and entropy reads; for race-free code that is complete, and races are TSan reports in any schedule where both accesses occur unordered',
+            'weak-memory reorderings are not executed; the data-race oracle is the C11 happens-before definition as implemented by ThreadSanitizer',
+            'TSan reports each distinct race once per process, so the count of violating schedules is a lower bound',
+            'linearizability oracle: the same operations replayed single-threaded in _mtx acquisition order with the recorded entropy answers must give identical return codes and output octets',
+        ],
+        'mandatory_probes': {'any': ['probe.mutex_contended', 'probe.linearizability_checked_ops', 'probe.entropy_starved_create', 'fault.state_alloc_failed', 'probe.exit_handlers_run', 'probe.recovery_checked']},
+    },
     'C07': {
         'level': 'exploration',
         'legs': [
@@ -16,6 +47,7 @@ CHECKS = {
             {'engine': 'faultcall', 'config': 'asan32', 'variant': 'base', 'runs': [3000, 200000]},
             {'engine': 'streamsim', 'config': 'asan', 'runs': [100000, 3000000]},
             {'engine': 'streamsim', 'config': 'asan32', 'runs': [50000, 1500000]},
+            {'engine': 'mtsim', 'config': 'asan', 'variant': 'exit', 'runs': [20000, 1000000]},
         ],
         'sigs_per_leg': True,
         'rule': ('a case is one fault-free simulated call (faultcall: one of the high-level functions with valid arguments over its documented '
@@ -30,7 +62,7 @@ CHECKS = {
             'math-layer functions with their own stack argument are reached only through high-level callers',
             'UBSan alignment/integer checks are off (bee2 does unaligned word loads by design)',
         ],
-        'mandatory_probes': {'any': ['calls', 'fault.state_migrated']},
+        'mandatory_probes': {'any': ['calls', 'fault.state_migrated', 'probe.several_exit_destructors']},
     },
     'C09': {
         'level': 'fault_enumeration',
@@ -135,11 +167,19 @@ NOT_APPLICABLE = {
     'C14': 'control-flow independence of machine code is invisible to a simulator that observes API effects; needs binary-level analysis',
     'C16': 'sign/verify/DH round trips: ' + NA_PURE,
     'C17': 'not yet built in this tree (protosim engine pending)',
-    'C18': 'not yet built in this tree (mtsim engine pending)',
     'C19': 'equality of differently built binaries on equal inputs has no nondeterminism to control (cross-build digests are used only as a determinism gate)',
 }
 
 MANIFEST_TEXT = {
+    'C18': {
+        'text': ('Seeded schedule search over fibers parked at every synchronisation point of the real mt.c/rng.c/util.c; ThreadSanitizer (fiber API, '
+                 'non-synchronising switches) as the happens-before oracle; linearizability decided by replaying the same operations sequentially '
+                 'in lock-acquisition order with the recorded entropy; once/atomic/refcount/lifetime/deadlock oracles; entropy, allocation, mutex-init '
+                 'and atexit faults attached to library-level events. Evidence, not proof: schedules are sampled.'),
+        'design_ref': 'DESIGN.md §3 C18',
+        'note': 'Trusted: ThreadSanitizer 14 fiber support; the cooperative scheduler (sim/kernel/fiber.c) adding no synchronisation of its own (uninstrumented, no_sync switches); hooks H-mt, H-rng-es, H-reset.',
+        'technique': 'deterministic simulation: seeded scheduler over fibers + TSan happens-before + sequential-replay linearizability',
+    },
     'C07': {
         'text': ('Rider check, partial by construction: fault-free simulated calls of ~80 high-level functions and 18 streaming bundles on the simulated heap with '
                  'exact-size buffers, states and blobs (H-blob), ASan + memory-related UBSan, library ASSERTs on, in the 64-bit and 32-bit word '
